@@ -6,6 +6,8 @@ TOKEN = re.compile(r"""
   | (?P<lc>//[^\n]*)
   | (?P<bc>/\*.*?\*/)
   | (?P<str>"(?:\\.|[^"\\])*")
+  | (?P<chr>'(?:\\.|[^'\\])')
+  | (?P<life>'[A-Za-z_]\w*)
   | (?P<num>\d[\d_]*(?:\.\d+)?(?:[a-z]\w*)?)
   | (?P<id>[A-Za-z_]\w*!?)
   | (?P<op>::|->|=>|\.\.=|\.\.|==|!=|<=|>=|&&|\|\||[-+*/%=<>!&|^~?@#$.,;:(){}\[\]])
